@@ -113,50 +113,51 @@ Qed.
 Section Steps.
   Variable fe : fenv.
   Variable nm : value -> Z.
+  Variable eqp : value -> value -> outcome value.
   Variable call : string -> list gval -> gres (list gval).
   Variable F : nat.
 
   Definition pafter (t : list pstmt) : pctl * genv -> gres (pctl * genv) :=
-    fun '(r, en1) => match r with PNormal => pexec_block fe nm call F t en1 | _ => GOk (r, en1) end.
+    fun '(r, en1) => match r with PNormal => pexec_block fe nm eqp call F t en1 | _ => GOk (r, en1) end.
 
-  Lemma pexec_block_nil : forall en, pexec_block fe nm call F [] en = GOk (PNormal, en).
+  Lemma pexec_block_nil : forall en, pexec_block fe nm eqp call F [] en = GOk (PNormal, en).
   Proof. reflexivity. Qed.
 
   Lemma pexec_block_cons : forall s1 t en,
-    pexec_block fe nm call F (s1 :: t) en = gbind (pexec fe nm call F s1 en) (pafter t).
+    pexec_block fe nm eqp call F (s1 :: t) en = gbind (pexec fe nm eqp call F s1 en) (pafter t).
   Proof. reflexivity. Qed.
 
   Lemma pexec_if : forall i c a b en,
-    pexec fe nm call F (PIf i c a b) en =
-    gbind (pexec_block fe nm call F i en) (fun '(r, en1) =>
+    pexec fe nm eqp call F (PIf i c a b) en =
+    gbind (pexec_block fe nm eqp call F i en) (fun '(r, en1) =>
       match r with
       | PNormal =>
-        gbind (peval_bool fe nm call c en1) (fun bv =>
-          if bv then pexec_block fe nm call F a en1 else pexec_block fe nm call F b en1)
+        gbind (peval_bool fe nm eqp call c en1) (fun bv =>
+          if bv then pexec_block fe nm eqp call F a en1 else pexec_block fe nm eqp call F b en1)
       | _ => GCrash "control in an init statement"
       end).
   Proof. reflexivity. Qed.
 
   Definition pcond_sem (c : option pexp) : genv -> gres bool :=
-    match c with Some ce => peval_bool fe nm call ce | None => fun _ => GOk true end.
+    match c with Some ce => peval_bool fe nm eqp call ce | None => fun _ => GOk true end.
 
-  Lemma pcond_sem_some : forall ce en, pcond_sem (Some ce) en = peval_bool fe nm call ce en.
+  Lemma pcond_sem_some : forall ce en, pcond_sem (Some ce) en = peval_bool fe nm eqp call ce en.
   Proof. reflexivity. Qed.
 
   Lemma pexec_for : forall i c p b en,
-    pexec fe nm call F (PFor i c p b) en =
-    gbind (pexec_block fe nm call F i en) (fun '(r, en1) =>
+    pexec fe nm eqp call F (PFor i c p b) en =
+    gbind (pexec_block fe nm eqp call F i en) (fun '(r, en1) =>
       match r with
-      | PNormal => pfor_loop F (pcond_sem c) (pexec_block fe nm call F p) (pexec_block fe nm call F b) en1
+      | PNormal => pfor_loop F (pcond_sem c) (pexec_block fe nm eqp call F p) (pexec_block fe nm eqp call F b) en1
       | _ => GCrash "control in an init statement"
       end).
   Proof. reflexivity. Qed.
 
   Lemma pexec_range : forall k e b en,
-    pexec fe nm call F (PRangeIdx k e b) en =
-    gbind (peval fe nm call e en) (fun v =>
+    pexec fe nm eqp call F (PRangeIdx k e b) en =
+    gbind (peval fe nm eqp call e en) (fun v =>
       match v with
-      | GInts l => prange_loop fe nm call (List.length l) 0 k (pexec_block fe nm call F b) en
+      | GInts l => prange_loop fe nm eqp call (List.length l) 0 k (pexec_block fe nm eqp call F b) en
       | _ => GCrash "range"
       end).
   Proof. reflexivity. Qed.
@@ -165,45 +166,45 @@ Section Steps.
   Fixpoint pswitch_cases (tv : gval) (cs : list (list pexp * list pstmt)) (dflt : list pstmt) (en : genv)
     : gres (pctl * genv) :=
     match cs with
-    | [] => pexec_block fe nm call F dflt en
+    | [] => pexec_block fe nm eqp call F dflt en
     | c :: t =>
-      gbind (pmatch_any fe nm call tv (fst c) en) (fun hit =>
-        if hit then pexec_block fe nm call F (snd c) en else pswitch_cases tv t dflt en)
+      gbind (pmatch_any fe nm eqp call tv (fst c) en) (fun hit =>
+        if hit then pexec_block fe nm eqp call F (snd c) en else pswitch_cases tv t dflt en)
     end.
 
   Lemma pexec_switch : forall tag cs d en,
-    pexec fe nm call F (PSwitch tag cs d) en =
-    gbind (peval fe nm call tag en) (fun tv => pswitch_cases tv cs d en).
+    pexec fe nm eqp call F (PSwitch tag cs d) en =
+    gbind (peval fe nm eqp call tag en) (fun tv => pswitch_cases tv cs d en).
   Proof.
-    intros tag cs d en. cbn [pexec]. destruct (peval fe nm call tag en) as [tv| | |]; try reflexivity.
+    intros tag cs d en. cbn [pexec]. destruct (peval fe nm eqp call tag en) as [tv| | |]; try reflexivity.
     cbn [gbind]. induction cs as [|c t IH]; [reflexivity|].
-    cbn [pswitch_cases]. destruct (pmatch_any fe nm call tv (fst c) en) as [hit| | |]; try reflexivity.
+    cbn [pswitch_cases]. destruct (pmatch_any fe nm eqp call tv (fst c) en) as [hit| | |]; try reflexivity.
     cbn [gbind]. destruct hit; [reflexivity|]. exact IH.
   Qed.
 
   Fixpoint ptype_cases (bind : option nat) (num : num) (cs : list (list kind * list pstmt)) (dflt : list pstmt)
            (v : gval) (en : genv) : gres (pctl * genv) :=
     match cs with
-    | [] => pexec_block fe nm call F dflt (match bind with Some n => gupd n v en | None => en end)
+    | [] => pexec_block fe nm eqp call F dflt (match bind with Some n => gupd n v en | None => en end)
     | c :: t =>
       if kind_in (num_kind num) (fst c)
-      then pexec_block fe nm call F (snd c) (match bind with Some n => gupd n (GNum num) en | None => en end)
+      then pexec_block fe nm eqp call F (snd c) (match bind with Some n => gupd n (GNum num) en | None => en end)
       else ptype_cases bind num t dflt v en
     end.
 
   Lemma pexec_typeswitch : forall bind e cs d en,
-    pexec fe nm call F (PTypeSwitch bind e cs d) en =
-    gbind (peval fe nm call e en) (fun v =>
+    pexec fe nm eqp call F (PTypeSwitch bind e cs d) en =
+    gbind (peval fe nm eqp call e en) (fun v =>
       match v with
       | GI x =>
         match x with
         | VNum num => ptype_cases bind num cs d v en
-        | _ => pexec_block fe nm call F d (match bind with Some n => gupd n v en | None => en end)
+        | _ => pexec_block fe nm eqp call F d (match bind with Some n => gupd n v en | None => en end)
         end
       | _ => GCrash "type switch"
       end).
   Proof.
-    intros bind e cs d en. cbn [pexec]. destruct (peval fe nm call e en) as [v| | |]; try reflexivity.
+    intros bind e cs d en. cbn [pexec]. destruct (peval fe nm eqp call e en) as [v| | |]; try reflexivity.
     cbn [gbind]. destruct v; try reflexivity. destruct v; try reflexivity.
     induction cs as [|c t IH]; [reflexivity|].
     cbn [ptype_cases]. destruct (kind_in (num_kind n) (fst c)); [reflexivity|]. exact IH.
@@ -227,17 +228,17 @@ Section Steps.
   Proof. reflexivity. Qed.
 
   Lemma prange_loop_S : forall n i k body en,
-    prange_loop fe nm call (S n) i k body en =
-    gbind (pstore fe nm call k (gint i) en) (fun en1 =>
+    prange_loop fe nm eqp call (S n) i k body en =
+    gbind (pstore fe nm eqp call k (gint i) en) (fun en1 =>
       gbind (body en1) (fun '(r, en2) =>
         match r with
-        | PNormal => prange_loop fe nm call n (i + 1) k body en2
+        | PNormal => prange_loop fe nm eqp call n (i + 1) k body en2
         | PReturned _ => GOk (r, en2)
         end)).
   Proof. reflexivity. Qed.
 End Steps.
 
 (* ------------------------------------------------------------------ the table *)
-Lemma psem_of_S : forall fe nm F defs d name args f, pfind defs name = Some f ->
-  psem_of fe nm F defs (S d) name args = prun_fn fe nm (psem_of fe nm F defs d) F f args.
-Proof. intros fe nm F defs d name args f H. cbn [psem_of]. rewrite H. reflexivity. Qed.
+Lemma psem_of_S : forall fe nm eqp F defs d name args f, pfind defs name = Some f ->
+  psem_of fe nm eqp F defs (S d) name args = prun_fn fe nm eqp (psem_of fe nm eqp F defs d) F f args.
+Proof. intros fe nm eqp F defs d name args f H. cbn [psem_of]. rewrite H. reflexivity. Qed.
